@@ -75,6 +75,26 @@ func c01Cases(r *verifkit.Run) []c01Params {
 			}
 		}
 	}
+	// Systematic family 2 (N=5, Q=3): an unquorate leader-local tail is re-shipped
+	// to one follower by gap repair, then both vanish and a quorum that never saw
+	// it installs. Parameters: leader, repaired follower, records in the
+	// unquorate proposal, acknowledged proposals before it, whether the old pair
+	// returns. (With N=3/Q=2 leader plus one follower already are a write quorum
+	// and cutting both would leave fewer than Q voters, so the shape has no
+	// 3-voter instance inside the premise.)
+	for _, l := range []int{1, 3, 5} {
+		for _, off := range []int{1, 3} {
+			b := (l-1+off)%5 + 1
+			for recs := 1; recs <= 2; recs++ {
+				for prefix := 0; prefix <= 1; prefix++ {
+					for ret := 0; ret <= 1; ret++ {
+						out = append(out, c01Params{Kind: "unquorate-repair", N: 5, Q: 3, Hedge: time.Millisecond, Trailing: time.Millisecond,
+							Page: 64 << 10, Key: fmt.Sprintf("uq-%d%d%d%d%d", l, b, recs, prefix, ret), Script: []int{l, b, recs, prefix, ret}})
+					}
+				}
+			}
+		}
+	}
 	shape := func() (int, int) {
 		v := rng.IntN(100)
 		switch {
@@ -122,6 +142,8 @@ func (d *c01Director) runScript() {
 		d.runSystematic()
 	case "bare-quorum":
 		d.runBare()
+	case "unquorate-repair":
+		d.runUnquorateRepair()
 	case "local-durability":
 		d.runLocalDurability()
 	case "gap-repair":
@@ -241,6 +263,22 @@ func (d *c01Director) runBare() {
 		return
 	}
 	d.doInstall(d.pick(d.available()), d.nextAuthority(0))
+}
+
+func (d *c01Director) runUnquorateRepair() {
+	s := d.p.Script
+	l, b := ch.NodeID(s[0]), ch.NodeID(s[1])
+	if !d.doInstall(l, replication.AuthorityID{ChannelEpoch: 1, LeaderTerm: 1, FenceVersion: 1}) || d.stopped {
+		return
+	}
+	for i := 0; i < s[3] && !d.stopped; i++ {
+		d.doCommit(l, 1, 0)
+		d.settle(6) // trailing replication brings every voter up to date
+	}
+	if d.stopped {
+		return
+	}
+	d.unquorateRepairShape(l, b, s[2], s[4] == 1)
 }
 
 // runLocalDurability makes the leader's own store slow, failing, or silently
@@ -422,7 +460,7 @@ func c01Main(t *testing.T, prop string, mode int) {
 	r := verifkit.Start(t, prop, "main")
 	defer r.Finish()
 	r.SetRule("Cases are a pure function of (seed, tier): a systematic family (N=3,Q=2: first leader, second acker, failed node, new leader, 1..3 proposals) " +
-		"plus PRNG families bare-quorum / gap-repair / interrupted-replace / random. A single-threaded director drives real replication.Runtime nodes through " +
+		"a second systematic family (N=5,Q=3: unquorate leader-local tail re-shipped by gap repair, leader+follower vanish, install elsewhere) plus PRNG families local-durability / bare-quorum / gap-repair / interrupted-replace / random. A single-threaded director drives real replication.Runtime nodes through " +
 		"install / commit / retry / crash-stop+restart / partition / heal / one-shot message faults (request dropped, response lost after apply, duplicate, delay) / " +
 		"leader-local store faults / crash points between recovery pages, never making more than N-Q voters unavailable and installing only on voters that can reach a quorum. " +
 		"Non-trivial for C01 = at least one acknowledged commit followed by a successful Install; for C02 = at least two replicas with Committed>=1 compared and at least one fault step. " +
